@@ -21,6 +21,8 @@ pub mod alloc_seam {
     pub static RESULT_FD: AtomicI32 = AtomicI32::new(-1);
     pub static REFUSE_CLASS: AtomicUsize = AtomicUsize::new(0);
     static mut CONTEXT: [u8; 24] = [0; 24];
+    static mut CHECK: [u8; 3] = *b"C06";
+    pub fn set_check(id: &str) { let b = id.as_bytes(); if b.len() >= 3 { unsafe { CHECK = [b[0], b[1], b[2]]; } } }
     static CONTEXT_LEN: AtomicUsize = AtomicUsize::new(0);
     /// what the harness was feeding the server (for attributing a refused allocation)
     pub fn set_context(s: &str) {
@@ -41,10 +43,13 @@ pub mod alloc_seam {
         let fd = RESULT_FD.load(Ordering::Relaxed);
         if fd >= 0 {
             let mut buf = [0u8; 384];
-            let head0 = b"{\"verdict\":\"violation\",\"violations\":[{\"class\":\"C06/alloc-bomb/refused/";
+            let head00 = b"{\"verdict\":\"violation\",\"violations\":[{\"class\":\"";
+            let head0 = b"/alloc-bomb/refused/";
             let head = b"\",\"detail\":\"a single allocation request of ";
             let tail = b" bytes (sized by client- or file-declared length) was refused by the allocator seam\",\"step\":0}]}";
             let mut n = 0;
+            for b in head00 { buf[n] = *b; n += 1; }
+            unsafe { for i in 0..3 { buf[n] = CHECK[i]; n += 1; } }
             for b in head0 { buf[n] = *b; n += 1; }
             let cl = CONTEXT_LEN.load(Ordering::Relaxed);
             unsafe { for i in 0..cl { buf[n] = CONTEXT[i]; n += 1; } }
